@@ -841,6 +841,9 @@ func runC09(c *Ctx) {
 	}
 	for _, p := range sweepPrograms() {
 		for _, cf := range cfgs {
+			if strings.HasSuffix(p.kind, "-depth-adds") && cf.depth > 400 {
+				continue // 300 + 300 nested levels: only limits below 600 make the guard the expected outcome
+			}
 			sp := childSpec{Src: p.src, MaxDepth: cf.depth, DurMs: cf.durMs, ASLimit: asLimit}
 			judge(c, p.kind, sp, runChild(c, sp, memLimitStr, time.Duration(cf.durMs)*time.Millisecond+12*time.Second), p.want)
 		}
